@@ -56,6 +56,9 @@ def run(ctx):
         for rep in range(2 if quick else 60):
             c = content(rng, sz)
             ops = history(rng, sz, 60 if quick else 300)
+            if rep == 0:
+                # a read that touches the end of the file exactly (and one beyond it), then reads far below it: the window moved by the first must not be taken for the file's head
+                ops = [[sz, 1], [0, 3], [max(0, sz - 1), 1], [1, 2], [sz, 0], [max(0, sz - 2048), 4], [sz + 1, 1], [0, 1]] + ops
             cases.append({"op": "reader", "content_hex": c.hex(), "reads": ops})
             meta.append((c, ops))
     for sz in (0, 5, 4093, 4094, 6200):
